@@ -33,17 +33,17 @@ def data_layout(P, layout):
     raise ValueError(layout)
 
 
-def body(ctx, conv, shape, bounds, as_coords, layout, nan_cells=None, mesh_opts=None, data_first=False, bounds_coords=False):
+def body(ctx, conv, shape, bounds, as_coords, layout, nan_cells=None, mesh_opts=None, data_first=False, bounds_coords=False, coord_dtype=None):
     pipeline.builders.DATA_FIRST = data_first
     pipeline.builders.BOUNDS_AS_COORDS = bounds_coords
     try:
-        return _body(ctx, conv, shape, bounds, as_coords, layout, nan_cells, mesh_opts)
+        return _body(ctx, conv, shape, bounds, as_coords, layout, nan_cells, mesh_opts, coord_dtype)
     finally:
         pipeline.builders.DATA_FIRST = False
         pipeline.builders.BOUNDS_AS_COORDS = False
 
 
-def _body(ctx, conv, shape, bounds, as_coords, layout, nan_cells=None, mesh_opts=None):
+def _body(ctx, conv, shape, bounds, as_coords, layout, nan_cells=None, mesh_opts=None, coord_dtype=None):
     # build once without data to learn the dimension names, then add the data variable
     probe = {'cf1d': ('y', 'x'), 'cf2d': ('y', 'x'), 'shoc_simple': ('j', 'i'),
              'shoc_standard': ('j_centre', 'i_centre'), 'ugrid': ('nface',)}[conv]
@@ -61,7 +61,7 @@ def _body(ctx, conv, shape, bounds, as_coords, layout, nan_cells=None, mesh_opts
     if conv == 'shoc_standard':   # a variable on another grid must never be confused with the face grid
         data['u1'] = (('j_left', 'i_left'), numpy.zeros((shape[0], shape[1] + 1)))
     P = pipeline.build(ctx, conv, shape, bounds=bounds, as_coords=as_coords, nan_cells=nan_cells,
-                       data=data, mesh_opts=mesh_opts)
+                       data=data, mesh_opts=mesh_opts, coord_dtype=coord_dtype)
     cv = P.convention
     N = P.ncells
     ctx.note('config', dict(conv=conv, shape=str(shape), bounds=bounds, layout=layout))
@@ -147,6 +147,15 @@ def _body(ctx, conv, shape, bounds, as_coords, layout, nan_cells=None, mesh_opts
         item = cv.get_index_for_point(pt)
         ctx.check(item is not None and int(item.linear_index) == n and tuple(item.index) == tuple(P.native(n))
                   and item.polygon is polygons[n], 'a point lookup that hits position n reports cell n (linear index, native index, polygon)')
+        if not ctx.symbolic:
+            # touching counts: each corner of the cell - also one on the outer edge of the model - is found in a cell
+            # that touches it (real GEOS, exact coordinates)
+            import shapely
+            for x, y in list(polygons[n].exterior.coords)[:-1]:
+                corner = shapely.Point(x, y)
+                found = cv.get_index_for_point(corner)
+                ctx.check(found is not None and found.polygon is polygons[int(found.linear_index)] and bool(found.polygon.intersects(corner)),
+                          'a corner of a cell (also on the outer edge of the model) is found in a cell that touches it')
     if ctx.symbolic:
         cv.__dict__['strtree'] = tree
 
@@ -186,6 +195,10 @@ def cases(tier):
         yield Case(f'{conv}:{shape[0]}x{shape[1]}:{bounds}:vars:plain:datafirst', body,
                    dict(conv=conv, shape=shape, bounds=bounds, as_coords=False, layout='plain', nan_cells=(), data_first=True),
                    patches=P, max_paths=500)
+    # whole-number axes stored in an integer type (see pipeline.int_coord_array: witness strength)
+    for dt, layout in (('int32', 'plain'), ('int64', 'extra_first')):
+        yield Case(f'cf1d:2x3:none:coords:{layout}:nan0:{dt}-coordinates', body,
+                   dict(conv='cf1d', shape=(2, 3), bounds='none', as_coords=True, layout=layout, nan_cells=(), coord_dtype=dt), patches=P, max_paths=5000, split=16)
     # stored bounds held as xarray coordinates
     for conv, shape in (('cf2d', (2, 2)), ('cf1d', (2, 3)), ('shoc_simple', (2, 2))):
         yield Case(f'{conv}:{shape[0]}x{shape[1]}:stored:coords:plain:bounds-as-coordinates', body,
